@@ -4,15 +4,20 @@ from .common import Rec, tlax
 
 
 def op_init():
-    return Rec(op="init", q="", k="")
+    return Rec(op="init", q="", k="", stores=[], syncs=[])
 
 
 def op_keep(q, k):
-    return Rec(op="keep", q=q, k=k)
+    return Rec(op="keep", q=q, k=k, stores=[], syncs=[])
 
 
 def op_load(q):
-    return Rec(op="load", q=q, k="")
+    return Rec(op="load", q=q, k="", stores=[], syncs=[])
+
+
+def op_evaln(stores, syncs):
+    """one evaluation with nested keeps: keys in store order (inner first), (path, key) in commit order"""
+    return Rec(op="evaln", q="", k="", stores=list(stores), syncs=[list(x) for x in syncs])
 
 
 SCENARIOS: Dict[str, Dict[str, Any]] = {
@@ -32,6 +37,25 @@ SCENARIOS: Dict[str, Dict[str, Any]] = {
         script={"v": [op_init(), op_keep("q2", "kB"), op_keep("q1", "kA")],
                 "r": [op_init(), op_keep("q2", "kB"), op_keep("q1", "kA"), op_load("q1"), op_load("q2")]},
         wait={"v": [], "r": ["v"]}),
+    "crash_nested": dict(
+        keys=["kA", "kB"], paths=["q1", "q2"], pre={}, victims=["v"],
+        script={"v": [op_init(), op_evaln(["kB", "kA"], [("q1", "kA"), ("q2", "kB")])],
+                "r": [op_init(), op_evaln(["kB", "kA"], [("q1", "kA"), ("q2", "kB")]), op_load("q1"), op_load("q2")]},
+        wait={"v": [], "r": ["v"]}),
+    "crash_nested_rekeep": dict(
+        keys=["kA0", "kA1", "kB"], paths=["q1", "q2"], pre={"q1": "kA0", "q2": "kB"}, victims=["v"],
+        script={"v": [op_init(), op_evaln(["kB", "kA1"], [("q1", "kA1"), ("q2", "kB")])],
+                "r": [op_init(), op_load("q1"), op_load("q2"), op_evaln(["kB", "kA1"], [("q1", "kA1"), ("q2", "kB")]), op_load("q1")]},
+        wait={"v": [], "r": ["v"]}),
+    # single process, no crash: the scenarios whose real call traces are checked for conformance
+    "conform_nested": dict(
+        keys=["kA", "kB"], paths=["q1", "q2"], pre={}, victims=[],
+        script={"v": [op_init(), op_evaln(["kB", "kA"], [("q1", "kA"), ("q2", "kB")])]},
+        wait={"v": []}),
+    "conform_rekeep": dict(
+        keys=["kA0", "kA1"], paths=["q1"], pre={"q1": "kA0"}, victims=[],
+        script={"v": [op_init(), op_evaln(["kA1"], [("q1", "kA1")])]},
+        wait={"v": []}),
     # ---- C07: free interleaving of a and b, then a checker
     "race_same_keep_cold": dict(
         keys=["kA"], paths=["q1"], pre={}, victims=[],
